@@ -473,7 +473,7 @@ class Model:
                     obj.attrs["__fields__"] = list(fields)          # a NamedTuple instance unpacks / indexes in field order
                 self.log("construct", node, cls=callee.qualname, attrs={k: to_term(v) for k, v in obj.attrs.items() if k != "__fields__"})
                 return obj
-            if init is not None and init.mod.name.startswith("hta"):
+            if init is not None and init.mod.name.startswith(("hta", "spec.")):
                 init.bound_self = obj
                 I.call_function(init, pos, kw, node)
             return obj
